@@ -201,22 +201,54 @@ func GenC19(seed uint64, idx int) *Scenario {
 			nt = 2
 		}
 		sc.Note = "big-table"
+		sc.Budget = 400000
+	}
+	// and half of those go into the thousands: records that carry dozens of values for the same
+	// field each (a table that compacts, re-hashes or changes representation at 1024 or 2048
+	// entries has to get there, with values that recur)
+	huge := big && r.Intn(2) == 0
+	if huge {
+		n := 1400 + r.Intn(1400)
+		v := make([]string, n)
+		for i := range v {
+			v[i] = fmt.Sprintf("w-%d-%d", i, r.Intn(10))
+		}
+		sc.Vocabs = [][]string{v}
+		mainType = "SymBox"
+		nt = 1
+		sc.Note = "huge-table"
+		sc.Budget = 4000000 // yields: a hundred records of a hundred elements each
 	}
 	for t := 0; t < nt; t++ {
 		nops := 3 + r.Intn(6)
 		if big {
 			nops = 150 + r.Intn(250)
 		}
+		if huge {
+			nops = 70 + r.Intn(60)
+		}
 		var ops []Op
 		for len(ops) < nops {
 			tn := mainType
-			if r.Intn(4) == 0 {
+			if !huge && r.Intn(4) == 0 {
 				tn = c19Types[r.Intn(len(c19Types))]
 			}
 			switch k := r.Intn(10); {
 			case k < 6:
 				var op Op
 				var ok bool
+				if huge {
+					// VSize above 60 makes the top-level slice of the record that long (genValue)
+					op, ok = decodeOp(sc, &r, cfg, tn, 80+r.Intn(60), 1)
+					if !ok {
+						nops--
+						continue
+					}
+					op.Buf = 1 + r.Intn(2)
+					op.Hold = r.Intn(5) == 0
+					ops = append(ops, op)
+					continue
+				}
 				switch r.Intn(6) {
 				case 0:
 					op, ok = concatOp(sc, &r, cfg, tn, 2+r.Intn(10), 1)
@@ -338,6 +370,9 @@ func GenC11(seed uint64, idx int) *Scenario {
 				}
 				op.Buf = 1 + r.Intn(2)
 				op.Hold = r.Intn(6) != 0
+				if op.Target > 0 && r.Intn(6) == 0 {
+					op.Self = true
+				}
 				if op.Target > 0 && r.Intn(5) == 0 {
 					// the target holds a value the caller built itself (exactly sized slices, other time zones...)
 					ops = append(ops, Op{Kind: "fill", Type: tn, Target: op.Target, VSeed: r.Next() | 1, VSize: 2 + r.Intn(16), Vocab: vocab, Pat: "raw"})
@@ -396,6 +431,7 @@ func GenC10(seed uint64, idx int) *Scenario {
 	long := r.Intn(50) == 0
 	if long {
 		sc.Note = "long-history"
+		sc.Budget = 400000
 	}
 	for t := 0; t < nt; t++ {
 		nops := 5 + r.Intn(10)
